@@ -134,6 +134,14 @@ def oracle(policy, actions, recs, snap):
                             f'{group_cr} before any stop condition (log {log})'))
             if any(o.startswith('jx') for o in rec['obs']):
                 exited_at = idx
+                # "on stopping, all members still running are cancelled": nobody the group holds
+                # is still running without ever having been sent a cancellation when join returns
+                crs_now = {o for r in recs[:idx + 1] for o in r['obs'] if o.startswith('cr')}
+                left = [i for i in present if i not in done and f'cr{i}' not in crs_now]
+                if left:
+                    bad.append(('c10:join-returned-leaving-member-uncancelled',
+                                f'policy {policy}: join returned at step {idx} {a} while members '
+                                f'{left} were still running and had never been cancelled'))
                 if stopped_at is None and not body_raised:
                     bad.append(('c10:join-returned-early',
                                 f'policy {policy}: join returned at step {idx} though no stop '
